@@ -37,38 +37,124 @@ DESIGNED_NOT_REGISTERED = []
 
 
 # ------------------------------------------------------------------------------------------ dual scalar helpers
-# every helper works on z3 terms and on python numbers (ground validation of the model / constant folding)
+# every helper works on symbolic values and on python numbers (ground validation of the model / constant folding).
+# Symbolic INTEGERS (indices, counts, offsets) are one-hot: `OH.d` maps each possible value to the z3 Bool "has this value"
+# (conditions mutually exclusive and exhaustive by construction) — index arithmetic then is purely propositional in the mask
+# Booleans (measured: the COO goals are `unknown` at 60 s with z3 Int or bit-vector terms and take seconds one-hot).
+class OH:
+    __slots__ = ('d',)
+
+    def __init__(self, d):
+        self.d = d
+
+    def __repr__(self):
+        return 'OH{%s}' % ','.join(str(k) for k in sorted(self.d))
+
+
 def num(x):
-    return not isz(x)
-
-
-INT_BITS = 16     # index arithmetic is two's-complement of this width (bit-blasted: the queries are propositional in the mask)
-
-
-def _I(x):
-    return x if isz(x) else z3.BitVecVal(int(x), INT_BITS)
+    return not isinstance(x, (z3.ExprRef, OH))
 
 
 def _B(x):
     return x if isz(x) else z3.BoolVal(bool(x))
 
 
+# direct constructors (z3.And / z3.Or / z3.Not spend most of their time coercing arguments; every argument here is a BoolRef of
+# the main context already)
+_CTX = z3.main_ctx()
+
+
+def _mk_and(args):
+    n = len(args)
+    return z3.BoolRef(z3.Z3_mk_and(_CTX.ref(), n, (z3.Ast * n)(*[a.ast for a in args])), _CTX)
+
+
+def _mk_or(args):
+    n = len(args)
+    return z3.BoolRef(z3.Z3_mk_or(_CTX.ref(), n, (z3.Ast * n)(*[a.ast for a in args])), _CTX)
+
+
+def _mk_not(a):
+    return z3.BoolRef(z3.Z3_mk_not(_CTX.ref(), a.ast), _CTX)
+
+
+def b_and(*xs):
+    out = []
+    for x in xs:
+        if not isz(x):
+            if not x:
+                return False
+            continue
+        out.append(x)
+    if not out:
+        return True
+    return out[0] if len(out) == 1 else _mk_and(out)
+
+
+def b_or(*xs):
+    out = []
+    for x in xs:
+        if not isz(x):
+            if x:
+                return True
+            continue
+        out.append(x)
+    if not out:
+        return False
+    return out[0] if len(out) == 1 else _mk_or(out)
+
+
+def b_not(x):
+    if not isz(x):
+        return not bool(x)
+    return _mk_not(x)
+
+
+def b_implies(a, b):
+    return b_or(b_not(a), b)
+
+
+def b_iff(a, b):
+    if not isz(a) and not isz(b):
+        return bool(a) == bool(b)
+    return _B(a) == _B(b)
+
+
+def _oh(pairs):
+    """one-hot integer from (value, condition) pairs (conditions exclusive and exhaustive): merged, pruned; an integer that
+    can take one value only is returned as a python int"""
+    d = {}
+    for k, c in pairs:
+        if not isz(c) and not c:
+            continue
+        d.setdefault(int(k), []).append(c)
+    if len(d) == 1:
+        return next(iter(d))
+    if not d:
+        raise Unsupported('integer with an empty set of values')
+    return OH({k: b_or(*cs) for k, cs in d.items()})
+
+
+def _items(a):
+    return a.d.items() if isinstance(a, OH) else ((int(a), True),)
+
+
 def i_add(a, b):
     if num(a) and num(b):
         return int(a) + int(b)
-    if num(a) and a == 0:
-        return b
-    if num(b) and b == 0:
-        return a
-    return _I(a) + _I(b)
+    if num(b):
+        a, b = b, a
+    if num(a):
+        return b if a == 0 else OH({k + int(a): c for k, c in b.d.items()})
+    return _oh([(i + j, b_and(ci, cj)) for i, ci in a.d.items() for j, cj in b.d.items()])
+
+
+def i_neg(a):
+    return -int(a) if num(a) else OH({-k: c for k, c in a.d.items()})
 
 
 def i_sub(a, b):
-    if num(a) and num(b):
-        return int(a) - int(b)
-    if num(b) and b == 0:
-        return a
-    return _I(a) - _I(b)
+    return i_add(a, i_neg(b))
 
 
 def i_mulc(c, a):
@@ -78,102 +164,84 @@ def i_mulc(c, a):
         return c * int(a)
     if c == 0:
         return 0
-    if c == 1:
-        return a
-    return _I(c) * a
+    return OH({c * k: cd for k, cd in a.d.items()})
 
 
 def i_eq(a, b):
     if num(a) and num(b):
         return int(a) == int(b)
-    if isz(a) and isz(b) and a.eq(b):
+    if a is b:
         return True
-    return _I(a) == _I(b)
+    if num(b):
+        a, b = b, a
+    if num(a):
+        return b.d.get(int(a), False)
+    return b_or(*[b_and(c, b.d[k]) for k, c in a.d.items() if k in b.d])
 
 
 def i_lt(a, b):
     if num(a) and num(b):
         return int(a) < int(b)
-    return _I(a) < _I(b)
+    if num(b):
+        return b_or(*[c for k, c in a.d.items() if k < int(b)])
+    if num(a):
+        return b_or(*[c for k, c in b.d.items() if int(a) < k])
+    return b_or(*[b_and(ci, cj) for i, ci in a.d.items() for j, cj in b.d.items() if i < j])
 
 
 def i_le(a, b):
-    if num(a) and num(b):
-        return int(a) <= int(b)
-    return _I(a) <= _I(b)
-
-
-def b_and(*xs):
-    out = []
-    for x in xs:
-        if num(x):
-            if not x:
-                return False
-            continue
-        out.append(x)
-    if not out:
-        return True
-    return out[0] if len(out) == 1 else z3.And(*out)
-
-
-def b_or(*xs):
-    out = []
-    for x in xs:
-        if num(x):
-            if x:
-                return True
-            continue
-        out.append(x)
-    if not out:
-        return False
-    return out[0] if len(out) == 1 else z3.Or(*out)
-
-
-def b_not(x):
-    if num(x):
-        return not bool(x)
-    return z3.Not(x)
-
-
-def b_implies(a, b):
-    return b_or(b_not(a), b)
-
-
-def b_iff(a, b):
-    if num(a) and num(b):
-        return bool(a) == bool(b)
-    return _B(a) == _B(b)
+    return i_lt(a, i_add(b, 1))
 
 
 def _same(a, b):
     if isz(a) and isz(b):
         return a.eq(b)
+    if isinstance(a, OH) or isinstance(b, OH):
+        return a is b
     if num(a) and num(b):
         return type(a) is type(b) and a == b
     return False
 
 
 def ite(c, a, b, kind):
-    if num(c):
+    if not isz(c):
         return a if c else b
     if _same(a, b):
         return a
     if kind == 'b':
         return z3.If(c, _B(a), _B(b))
     if kind == 'i':
-        return z3.If(c, _I(a), _I(b))
+        nc = _mk_not(c)
+        return _oh([(k, b_and(c, x)) for k, x in _items(a)] + [(k, b_and(nc, x)) for k, x in _items(b)])
     return z3.If(c, sym.toz(a), sym.toz(b))
 
 
+def select(cases, default, kind):
+    """value of the first (and, by the caller's construction, ONLY) case whose condition holds, else default.
+    cases: list of (condition, value) with mutually exclusive conditions"""
+    cases = [(c, v) for c, v in cases if isz(c) or c]
+    for c, v in cases:
+        if not isz(c):          # a condition that is literally True: exclusive => it is the value
+            return v
+    if kind != 'i':
+        r = default
+        for c, v in reversed(cases):
+            r = ite(c, v, r, kind)
+        return r
+    if not cases:
+        return default
+    none = b_not(b_or(*[c for c, _ in cases]))
+    pairs = [(k, b_and(none, x)) for k, x in _items(default)]
+    for c, v in cases:
+        pairs += [(k, b_and(c, x)) for k, x in _items(v)]
+    return _oh(pairs)
+
+
 def i_min(a, b):
-    if num(a) and num(b):
-        return min(int(a), int(b))
     return ite(i_le(a, b), a, b, 'i')
 
 
 def i_max(a, b):
-    if num(a) and num(b):
-        return max(int(a), int(b))
     return ite(i_le(a, b), b, a, 'i')
 
 
@@ -193,15 +261,14 @@ def prefix_counts(flags):
 
 
 def table_mul(a, cap_a, b):
-    """a*b for 0 <= a <= cap_a as a case split over the values of a (keeps the arithmetic linear)"""
+    """a*b by cases over the values of both factors"""
     if num(a):
         return i_mulc(a, b)
     if num(b):
         return i_mulc(b, a)
-    r = a * b                     # unreachable fall-back (a outside 0..cap_a)
-    for k in range(cap_a, -1, -1):
-        r = z3.If(a == k, _I(i_mulc(k, b)), r)
-    return r
+    if a is b:
+        return OH({k * k: c for k, c in a.d.items()})
+    return _oh([(i * j, b_and(ci, cj)) for i, ci in a.d.items() for j, cj in b.d.items()])
 
 
 def _require(cond, what, exc=ValueError):
@@ -213,6 +280,16 @@ def _require(cond, what, exc=ValueError):
     ex = px.cur()
     if ex is None:
         raise Unsupported('symbolic definedness condition outside an exploration: %s' % what)
+    # decided on the spot when cheap (a VALID condition need not be carried as an assumption: the path condition stays small);
+    # otherwise recorded as an ordinary goal and assumed
+    s = z3.Solver()
+    s.set('timeout', 10000)
+    s.add(*ex.pc)
+    s.add(z3.Not(cond))
+    if s.check() == z3.unsat:
+        ex._defproved[DEFINED] = ex._defproved.get(DEFINED, 0) + 1
+        ex._defkeep.append((cond, what))
+        return
     ex.goal(DEFINED, Holds(cond), info=what)
     ex.assume(cond)
 
@@ -365,7 +442,7 @@ class PA:
         return self._scalar(self.data.reshape(-1)[0])
 
     def _scalar(self, v):
-        if self.kind == 'i' and isz(v):
+        if self.kind == 'i' and not num(v):
             if self.ecap is None:
                 raise Unsupported('integer entry without a known bound read as a scalar')
             return SInt(v, self.ecap)
@@ -506,10 +583,7 @@ def _compress(a, m):
     dflt = KIND_DEFAULT[a.kind]
     out = onp.empty((n,), dtype=object)
     for p in range(n):
-        v = dflt
-        for i in range(n - 1, p - 1, -1):
-            v = ite(b_and(mf[i], i_eq(pre[i], p)), af[i], v, a.kind)
-        out[p] = v
+        out[p] = select([(b_and(mf[i], i_eq(pre[i], p)), af[i]) for i in range(p, n)], dflt, a.kind)
     return PA(out, a.kind, (total,), a.ecap)
 
 
@@ -532,11 +606,7 @@ def _gather(s, idx):
     _require(b_and(*[b_implies(i_lt(p, L), b_and(i_le(0, effs[p]), i_lt(effs[p], Ls))) for p in range(ni)]),
              'every index of a gather lies within the indexed array', IndexError)
     for p in range(ni):
-        e = effs[p]
-        v = dflt
-        for d in range(ns - 1, -1, -1):
-            v = ite(i_eq(e, d), s.data[d], v, s.kind)
-        out[p] = v
+        out[p] = select([(i_eq(effs[p], d), s.data[d]) for d in range(ns)], dflt, s.kind)
     return PA(out, s.kind, (idx.ext[0],), s.ecap)
 
 
@@ -606,9 +676,8 @@ def _masked_set(a, m, value):
         one = i_eq(value.length(), 1)
         for i in range(n):
             v = af[i]
-            sel = value.data[0] if nv else KIND_DEFAULT[a.kind]
-            for p in range(min(i, nv - 1), -1, -1):
-                sel = ite(b_and(i_eq(pre[i], p), b_not(one)), value.data[p], sel, a.kind)
+            sel = select([(b_and(i_eq(pre[i], p), b_not(one)), value.data[p]) for p in range(min(i, nv - 1) + 1)],
+                         value.data[0] if nv else KIND_DEFAULT[a.kind], a.kind)
             out[i] = ite(mf[i], sel, v, a.kind)
     else:
         val = _value_at(value, 0, total, a.kind)[0]
@@ -681,9 +750,8 @@ def _slice_assign(a, key, value):
         v = a.data[q]
         inside = b_and(i_le(start, q), i_lt(q, stop))
         if isinstance(value, PA):
-            sel = value.data[0] if nv else KIND_DEFAULT[a.kind]
-            for p in range(min(q, nv - 1), -1, -1):
-                sel = ite(b_and(i_eq(i_add(start, p), q), b_not(one)), value.data[p], sel, a.kind)
+            sel = select([(b_and(i_eq(i_add(start, p), q), b_not(one)), value.data[p]) for p in range(min(q, nv - 1) + 1)],
+                         value.data[0] if nv else KIND_DEFAULT[a.kind], a.kind)
         else:
             sel = _value_at(value, 0, cnt, a.kind)[0]
         new[q] = ite(inside, sel, v, a.kind)
@@ -696,18 +764,20 @@ def _block_ravel(a):
     """C-order ravel of a 2-d block of symbolic shape (m, n): flat position of (r, c) is r*n + c"""
     cm, cn = a.data.shape
     m, n = a.length(0), a.length(1)
-    total = table_mul(m, cm, n) if not (num(m) and num(n)) else int(m) * int(n)
+    total = table_mul(m, cm, n)
     dflt = KIND_DEFAULT[a.kind]
     out = onp.empty((cm * cn,), dtype=object)
+    rn = [i_mulc(r, n) for r in range(cm)]
+    rowok = [i_lt(r, m) for r in range(cm)]
+    colok = [i_lt(c, n) for c in range(cn)]
     for q in range(cm * cn):
-        v = dflt
-        for r in range(cm - 1, -1, -1):
-            for c in range(cn - 1, -1, -1):
+        cases = []
+        for r in range(cm):
+            for c in range(cn):
                 if c > q or r * cn + c < q:
                     continue
-                cond = b_and(i_lt(r, m), i_lt(c, n), i_eq(i_add(i_mulc(r, n), c), q))
-                v = ite(cond, a.data[r, c], v, a.kind)
-        out[q] = v
+                cases.append((b_and(rowok[r], colok[c], i_eq(rn[r], q - c)), a.data[r, c]))
+        out[q] = select(cases, dflt, a.kind)
     return PA(out, a.kind, (total,), a.ecap)
 
 
@@ -1079,7 +1149,7 @@ def coo_oracle(cfg, orc):
     ne = [count([orc.efree(e, i) for i in range(nD)]) for e in range(nEl)]
     off = [0]
     for e in range(nEl):
-        off.append(i_add(off[-1], table_mul(ne[e], nD, ne[e]) if isz(ne[e]) else int(ne[e]) ** 2))
+        off.append(i_add(off[-1], table_mul(ne[e], nD, ne[e])))
     return M, rank, total, off
 
 
@@ -1092,18 +1162,25 @@ def goals_coo(G, cfg, orc, dm):
     G('hessian_bc_mask_marks_the_unknown_by_unknown_entries', [b_iff(mask.at(idx(e, i, j)), M[e][i][j]) for e in range(nEl) for i in range(nD) for j in range(nD)] + [mask.shape == (nEl, nD, nD)])
     G('coo_lengths_equal_the_number_of_masked_entries', [i_eq(rows.n, total), i_eq(cols.n, total), i_eq(off[-1], total)])
     G('coo_coordinates_are_unknown_ids', [b_implies(i_lt(t, v.n), b_and(i_le(0, v.at(t)), i_lt(v.at(t), orc.nfree))) for v in (rows, cols) for t in range(cap)])
-    # each element's segment of the stream addresses exactly the pairs (u, v) of unknowns of that element, each once
-    conds = []
+    # each element's segment [off_e, off_e+1) of the stream addresses exactly the pairs (u, v) of unknowns of that element, each
+    # once: the pairs of a segment lie in U_e x U_e, every pair of U_e x U_e occurs, no pair occurs twice
+    seg = [[b_and(i_le(off[e], t), i_lt(t, off[e + 1])) for t in range(cap)] for e in range(nEl)]
+    within, onto, norepeat = [], [], []
     for e in range(nEl):
         inel = [b_or(*[b_and(orc.efree(e, i), i_eq(orc.unk(e, i), u)) for i in range(nD)]) for u in range(nd)]
+        lo, hi = e * 0, min(cap, (e + 1) * nD * nD)          # static range of the segment: offsets are sums of squares <= nD^2
+        for t in range(lo, hi):
+            within.append(b_implies(seg[e][t], b_and(b_or(*[b_and(inel[u], i_eq(rows.at(t), u)) for u in range(nd)]),
+                                                      b_or(*[b_and(inel[u], i_eq(cols.at(t), u)) for u in range(nd)]))))
         for u in range(nd):
             for v in range(nd):
-                c = 0
-                for t in range(cap):
-                    hit = b_and(i_le(off[e], t), i_lt(t, off[e + 1]), i_eq(rows.at(t), u), i_eq(cols.at(t), v))
-                    c = i_add(c, ite(hit, 1, 0, 'i'))
-                conds.append(i_eq(c, ite(b_and(inel[u], inel[v]), 1, 0, 'i')))
-    G('coo_pairs_address_the_unknown_by_unknown_entries_of_each_element_each_once', conds)
+                onto.append(b_implies(b_and(inel[u], inel[v]), b_or(*[b_and(seg[e][t], i_eq(rows.at(t), u), i_eq(cols.at(t), v)) for t in range(lo, hi)])))
+        for t in range(lo, hi):
+            for t2 in range(t + 1, hi):
+                norepeat.append(b_not(b_and(seg[e][t], seg[e][t2], i_eq(rows.at(t), rows.at(t2)), i_eq(cols.at(t), cols.at(t2)))))
+    G('coo_pairs_of_an_element_are_pairs_of_its_unknowns', within + [b_implies(i_lt(t, rows.n), b_or(*[seg[e][t] for e in range(nEl)])) for t in range(cap)])
+    G('coo_pairs_cover_every_unknown_by_unknown_entry_of_each_element', onto)
+    G('coo_pairs_address_no_entry_of_an_element_twice', norepeat)
     # pairing with the masked values kValues[hessian_bc_mask] (C order): entry t of the stream is the (e,i,j) of rank t; its pair is
     # (unknown of i, unknown of j) for all t, or (unknown of j, unknown of i) for all t (the orientation matters only for
     # unsymmetric element blocks and is decided in C02-O1)
@@ -1137,6 +1214,4 @@ def make_harness(cfg, parts, mod_cache=None):
             ex.goal(name, Holds(list(conds)), info='%s' % cfg.name)
         for p in parts:
             PARTS[p](G, cfg, orc, dm, ex)
-        if ex.symbolic:
-            ex.goal(DEFINED, Holds(True))
     return fn
